@@ -12,7 +12,8 @@ LEVEL = 'other'
 EXPLANATION = __doc__
 
 WIDTH_CALLS = re.compile(r'(mem::size_of|any::TypeId|any::type_name|NumCast::from|ToPrimitive::to_f(32|64)|cast::cast|FromPrimitive::from_f(32|64)|'
-                         r'f(32|64)::from_bits|::to_bits$|Float::(epsilon|integer_decode|max_value|min_positive_value)$|MANTISSA_DIGITS)')
+                         r'f(32|64)::from_bits|::to_bits$|Float::(epsilon|integer_decode|max_value|min_value|min_positive_value|is_normal|is_subnormal|classify)$|'
+                         r'f(32|64)::(is_normal|is_subnormal|classify)$|MANTISSA_DIGITS)')
 
 
 def scan_width(facts):
